@@ -78,9 +78,9 @@ def forms():
     F["except_only_name"] = lambda k: ([I.try_([I.raise_(k())],
                                                [I.handler("", [I.assign(I.name("z"), I.site(k())), I.seen("z")])])], [])
     F["for_tuple_target"] = lambda k: ([I.for_(I.tup(I.name("i"), I.name("j")), k(), [I.seen("i")])], [])
-    F["for_star_target"] = lambda k: ([I.for_(I.tup(I.name("i"), I.star("j")), k(), [I.seen("i"), I.assign(I.name("a"), I.read("j"))])], ["a"])
-    F["for_attr_target"] = lambda k: ([I.assign(I.name("o"), I.obj(k())), I.for_(I.attr("o", "p"), k(), [I.assign(I.name("a"), I.site(k()))])], ["a"])
-    F["for_sub_target"] = lambda k: ([I.assign(I.name("o"), I.obj(k())), I.for_(I.sub("o", I.site(k())), k(), [I.assign(I.name("a"), I.site(k()))])], ["a"])
+    F["for_star_target"] = lambda k: ([I.for_(I.tup(I.name("i"), I.star("j")), k(), [I.seen("i"), I.assign(I.name("a"), I.read("j")), I.seen("a")])], [])
+    F["for_attr_target"] = lambda k: ([I.assign(I.name("o"), I.obj(k())), I.for_(I.attr("o", "p"), k(), [I.assign(I.name("a"), I.site(k())), I.seen("a")])], [])
+    F["for_sub_target"] = lambda k: ([I.assign(I.name("o"), I.obj(k())), I.for_(I.sub("o", I.site(k())), k(), [I.assign(I.name("a"), I.site(k())), I.seen("a")])], [])
     F["attr_decl"] = lambda k: ([I.assign(I.name("o"), I.obj(k())), I.annattr("o", "p"), I.assign(I.name("a"), I.site(k()))], ["a"])
     F["for_nested_tuple_target"] = lambda k: ([I.for_(I.tup(I.name("i"), I.tup(I.name("j"), I.name("a"))), k(),
                                                       [I.seen("j"), I.if_(k(), [I.brk()]), I.if_(k(), [I.cont()]), I.seen("a")])], [])
